@@ -78,7 +78,7 @@ fn items(tier: Tier) -> &'static Vec<Item> {
         let mut v = Vec::new();
         for per_thread in [false, true] {
             for s in slots(true, false) {
-                v.push(Item { slots: vec![s], per_thread, bound: if thorough { 2 } else { 1 }, withhold_tail: None });
+                v.push(Item { slots: vec![s], per_thread, bound: 2, withhold_tail: None });
             }
             for a in slots(false, !thorough) {
                 for b in slots(true, !thorough) {
@@ -86,7 +86,7 @@ fn items(tier: Tier) -> &'static Vec<Item> {
                     v.push(Item {
                         slots: vec![a.clone(), b.clone()],
                         per_thread,
-                        bound: if !per_thread { 0 } else if thorough { if risky { 2 } else { 1 } } else if risky { 1 } else { 0 },
+                        bound: if !per_thread { 0 } else if risky { 2 } else { 1 },
                         withhold_tail: None,
                     });
                 }
@@ -98,7 +98,7 @@ fn items(tier: Tier) -> &'static Vec<Item> {
                         v.push(Item {
                             slots: vec![a.clone(), b.clone(), c.clone()],
                             per_thread,
-                            bound: if thorough && risky && per_thread { 1 } else { 0 },
+                            bound: if risky && per_thread { 1 } else { 0 },
                             withhold_tail: None,
                         });
                     }
@@ -127,7 +127,7 @@ fn items(tier: Tier) -> &'static Vec<Item> {
                         }
                         let head_len = last.request.windows(4).position(|w| w == b"\r\n\r\n").map_or(0, |p| p + 4);
                         sl.push(last.clone());
-                        v.push(Item { slots: sl, per_thread, bound: if thorough && per_thread { 1 } else { 0 }, withhold_tail: Some(head_len + sent_body) });
+                        v.push(Item { slots: sl, per_thread, bound: if per_thread { 1 } else { 0 }, withhold_tail: Some(head_len + sent_body) });
                     }
                 }
             }
@@ -219,7 +219,7 @@ impl Check for C06 {
         format!(
             "handler programs for n = 1..3 pipelined requests: request {{GET, HEAD, POST Content-Length 10 / 2000, chunked 2000}} x body read {{none, part, all}} x finish {{respond, into_writer + complete raw response, upgrade (last request), drop, panic while holding the request}}, one handler thread per request or one thread for all (n=3{}: GET/HEAD/Content-Length 2000 x respond/drop/panic); {} programs; schedules: all with at most {} deviations (strict); oracle (reference model): the client stream splits into exactly n final messages in request order with the status each action implies (500 for drop and panic), nothing duplicated or missing, no hang; non-trivial = all",
             if tier == Tier::Thorough { "" } else { " and n=2 in the quick tier" }, items(tier).len(),
-            if tier == Tier::Thorough { "2 (n<=2 with a drop/panic), 1 (other threaded programs), 0 (single handler thread)" } else { "1 (n=1, n=2 with a drop/panic), 0 otherwise" }
+"2 (n<=2 with a drop/panic), 1 (other threaded programs, n=3 with a drop/panic), 0 (single handler thread)"
         )
     }
     fn replay(&self, replay: &Value, acc: &mut Acc) {
